@@ -647,7 +647,8 @@ pub fn run(args: &Args, out: &mut Out) {
     for i in 0..n {
         let mut rng = Rng::for_case(args.seed, i);
         let len = 5 + rng.usize(40);
-        out.case(i, &format!("script nt=1 len={len} peers={}{}", peers_tok(), sw_tag(args)));
+        // Swarm-level cases of C08 are appended to the component-level ones by h_sw_b: keep the indices apart
+        out.case(if args.prop == "C08" { 2_000_000 + i } else { i }, &format!("script nt=1 len={len} peers={}{}", peers_tok(), sw_tag(args)));
         let mut r = Runner::new();
         for _ in 0..len {
             let op = if args.prop == "C08" { g.next_c08(&mut rng, &r) } else { g.next(&mut rng, &r) };
